@@ -65,3 +65,25 @@ Theorem C16_other_secret_or_client_rejected_refuted :
     verify idH s c s' c' None 0 0 = Some true.
 Proof. exact other_secret_or_client_rejected_refuted. Qed.
 Print Assumptions C16_other_secret_or_client_rejected_refuted.
+
+(* ---- translator tie: the model used above is equal to the definitions
+   generated from the current poorwsgi/session.py by harness/py2v.py
+   (gen/TokenGen.v is rewritten on every check run), over the Python
+   semantics of lib/Py.v; time is the exact rational [PRat t usec] *)
+Require Import PW.lib.Py PW.gen.TokenGen PW.proofs.TokenGenEq.
+
+Theorem C16_generated_get_token_is_model :
+  forall H s c timeout e t,
+    0 <= t -> (forall T, timeout = Some T -> 0 <= T) ->
+    gen_get_token H (PStr s) (PStr c) (inj_to timeout) (PInt e) (clock t)
+    = inj_ol (get_token H s c timeout e t).
+Proof. exact gen_get_token_eq. Qed.
+Print Assumptions C16_generated_get_token_is_model.
+
+Theorem C16_generated_check_token_is_model :
+  forall H tok s c timeout t,
+    0 <= t -> (forall T, timeout = Some T -> 0 <= T) ->
+    gen_check_token H (PStr tok) (PStr s) (PStr c) (inj_to timeout) (clock t)
+    = inj_ob (check_token H tok s c timeout t).
+Proof. exact gen_check_token_eq. Qed.
+Print Assumptions C16_generated_check_token_is_model.
